@@ -95,8 +95,17 @@ ev_survey(int c, int i)
 	umsg[i]  = kmsg(2);
 	nni_aio_set_msg(&uaio_at(i), umsg[i]);
 	env_aio_submit(&uaio_at(i));
+	int idfail0 = env_idmap_failed;
 	surv0_ctx_send(ctxs[c], &uaio_at(i));
 	kquiesce();
+#ifdef VH_FAULTPASS
+	if (env_idmap_failed && !idfail0) {
+		SCHECK(KDONE(i) && KRESULT(i) == NNG_ENOMEM, "C20: a survey whose id cannot be allocated fails at once with NNG_ENOMEM");
+		SCHECK(nni_aio_get_msg(&uaio_at(i)) == umsg[i], "C20/C03: and the message stays with the caller");
+		SCHECK(ctxs[c]->survey_id == 0, "C20: no half-made survey is left in the context");
+		WITNESS("survey refused: no id");
+	}
+#endif
 	CHECK(KDONE(i) && KRESULT(i) == 0, "a survey is accepted at once (also when submitted non-blocking)");
 	gen[c]++;
 	prev_id[c]  = cur_id[c];
